@@ -320,12 +320,14 @@ def check_switches(R, prog):
             given[k.arg] = k.value
         for p in params:
             a = given.get(p)
+            dest = "no_" + p
+            verdict = fold_switch(fi, a, params, dest) if a is not None else False
             if isinstance(a, ast.Name) and a.id in env:
                 a = env[a.id]
-            dest = "no_" + p
             want = ["'fixed' if args.%s else 'shuffle'" % dest, "'shuffle' if not args.%s else 'fixed'" % dest]
-            if a is not None and src(a) in want:
-                R.ok("SWITCH-SIBLING", "%s: Shuffle(%s) is 'fixed' exactly when --no-%s is given" % (fi.qualname, p, p.replace("_", "-")), fi.key)
+            if verdict is True or (verdict is None and a is not None and src(a) in want):
+                R.ok("SWITCH-SIBLING", "%s: Shuffle(%s) is 'fixed' exactly when --no-%s is given%s" % (
+                    fi.qualname, p, p.replace("_", "-"), " (folded for the 8 switch combinations)" if verdict else ""), fi.key)
             else:
                 R.bad(F("SWITCH-SIBLING", fi, "%s -> Shuffle(%s)" % (fi.qualname, p),
                         "parameter %s must be 'fixed' when switch --no-%s (dest %s) is set and 'shuffle' otherwise; it receives %s"
@@ -346,3 +348,44 @@ def check_switches(R, prog):
                 R.ok("SWITCH-SIBLING", "%s: option %s stores True into %s" % (fi.qualname, o, d), fi.key)
             else:
                 R.bad(F("SWITCH-SIBLING", fi, "%s option %s" % (fi.qualname, o), "option %s must be a store_true switch with dest %s" % (o, d)))
+
+
+def fold_switch(fi, arg, params, dest):
+    """value of the expression handed to Shuffle for every combination of the three --no-* switches: 'fixed' exactly when ``dest`` is
+    set.  The statements that define the locals the expression uses (assignments, conditional overrides, local helper functions) are
+    folded in source order.  True / False, or None when the slice cannot be folded."""
+    import itertools
+    import types
+    from ..fold import Folder, Raised
+    from ..ql import Unknown
+    argname = [p_ for p_ in fi.params if p_ in ("args",)] or ["args"]
+    needed = {n.id for n in ast.walk(arg) if isinstance(n, ast.Name)} - {argname[0]}
+    chosen = []
+    body = list(fi.node.body)
+    changed = True
+    while changed:
+        changed = False
+        for st in body:
+            if st in chosen or not isinstance(st, (ast.Assign, ast.If, ast.FunctionDef)):
+                continue
+            stored = {n.id for n in ast.walk(st) if isinstance(n, ast.Name) and isinstance(n.ctx, ast.Store)}
+            if isinstance(st, ast.FunctionDef):
+                stored = {st.name}
+            if stored & needed:
+                chosen.append(st)
+                needed |= {n.id for n in ast.walk(st) if isinstance(n, ast.Name) and isinstance(n.ctx, ast.Load)} - {argname[0]}
+                changed = True
+    chosen.sort(key=lambda st: st.lineno)
+    for combo in itertools.product([False, True], repeat=3):
+        ns = types.SimpleNamespace(**{"no_" + p_: v for p_, v in zip(params, combo)})
+        f = Folder(env={argname[0]: ns})
+        try:
+            f.run(chosen)
+            got = f.ev(arg)
+        except (Unknown, Raised):
+            return None
+        except Exception:
+            return None
+        if got != ("fixed" if getattr(ns, dest) else "shuffle"):
+            return False
+    return True
